@@ -603,7 +603,7 @@ def oracle(ctx, case, out):
         for r in out:
             xs = zone_valid_values(zones, values, r['zone'], nd)
             for s in case['stats']:
-                key = key0 or (K_SQ if sumsq_overflow_class(case, s) else None)
+                key = (K_SQ if sumsq_overflow_class(case, reducer_of(case, s)) else None) or key0
                 if not stat_matches(reducer_of(case, s), r[s], xs, case['vdtype']):
                     ctx.violation('oracle', 'stats: zone %r %s = %r but its valid cells are %r' % (
                         r['zone'], col_desc(case, s), r[s], [float(x) for x in xs]),
